@@ -214,3 +214,31 @@ Proof.
   split; [exact Ho|]. intros g Hg. exact (proj2 (Hs g Hg)).
 Qed.
 End Documented.
+
+(* ---------------- the stage list of C01Model is the list forward matching registers (C16) ---------------- *)
+From AiuModel Require Import Profile_proofs Registration_facts.
+
+Lemma number_combine_names (v : nat -> bool) : forall (p : program) (P : prof) (i : nat),
+  map fst P = names p ->
+  map (fun x => r_name (snd x))
+      (map fst (filter (fun x => geval v (r_guard (snd (fst x))) && snd (snd x)) (combine (number i p) P)))
+  = keep (calls v p) (selflags P (mask v p)).
+Proof.
+  induction p as [|r p IH]; intros P i Hn.
+  - destruct P; reflexivity.
+  - destruct P as [|[n f] P]; [discriminate|]. cbn [map names fst] in Hn. injection Hn as Hn1 Hn2.
+    cbn [number combine filter fst snd]. unfold calls, mask. cbn [map filter selflags].
+    destruct (geval v (r_guard r)) eqn:Eg; cbn [andb].
+    + destruct f; cbn [map fst snd keep]; [f_equal|]; apply (IH P (S i) Hn2).
+    + apply (IH P (S i) Hn2).
+Qed.
+
+(* names of the stages C01Model runs = names of the stages EventProcessor.register_stage keeps, for every valuation
+   and every profile over the program's names (default, torch_minimal, any ingested profile) *)
+Theorem selected_is_registered (v : nat -> bool) (P : prof) :
+  map fst P = names the_program ->
+  map (fun x => r_name (snd x)) (selected v P the_program) = registered P (calls v the_program).
+Proof.
+  intros Hn. unfold selected. rewrite (number_combine_names v the_program P 0 Hn).
+  symmetry. apply registered_any_profile; [exact program_sep|exact Hn].
+Qed.
